@@ -73,6 +73,7 @@ def run(prop_filter=None, runs=None, tier="quick") -> int:
             env = dict(os.environ)
             env["VERIF_REPO"] = d
             env["VERIF_SCRATCH_OUT"] = os.path.join(d, "_out")
+            env.setdefault("VERIF_FAST_FAIL", "1")     # detected or not is settled by the first violation
             env.pop("VERIF_REEXEC", None)
             cmd = [os.path.join(VERIF_DIR, "check"), prop, "--tier", tier]
             if runs:
